@@ -65,8 +65,8 @@ var sysCA *casim.CA
 var ips = []string{"127.0.0.1", "127.0.0.2", "127.0.0.3", "127.0.0.4"}
 
 const (
-	idCAA, idCAB, idForeign, idSystem, idClientCA, idClientForeign, idExpiredCA = 1, 2, 3, 4, 5, 6, 7
-	nameOtherIP, nameOtherDNS                                                   = 9, 20
+	idCAA, idCAB, idForeign, idSystem, idClientCA, idClientForeign, idExpiredCA, idSelfClient = 1, 2, 3, 4, 5, 6, 7, 8
+	nameOtherIP, nameOtherDNS                                                                 = 9, 20
 )
 
 // ---- the dimensions of the matrix
@@ -276,19 +276,27 @@ type harness struct {
 	keyFile  string
 	bundles  [][]string // files per bundle kind
 	signers  map[string]*crypki.Signer
+	// selfClient: the cases that follow configure a client certificate that is a single self-signed certificate
+	selfClient                bool
+	selfCert                  tls.Certificate
+	selfCertFile, selfKeyFile string
 }
 
 func (h *harness) signer(b bundleKind, eps []int) (*crypki.Signer, error) {
-	key := fmt.Sprint(b, eps)
+	key := fmt.Sprint(b, eps, h.selfClient)
 	if s, ok := h.signers[key]; ok {
 		return s, nil
+	}
+	certFile, keyFile := h.certFile, h.keyFile
+	if h.selfClient {
+		certFile, keyFile = h.selfCertFile, h.selfKeyFile
 	}
 	names := make([]string, len(eps))
 	for i, ep := range eps {
 		names[i] = ips[ep]
 	}
 	s, err := crypki.NewSigner(crypki.SignerConfig{
-		TLSClientKeyFile: h.keyFile, TLSClientCertFile: h.certFile, TLSCACertFiles: h.bundles[b],
+		TLSClientKeyFile: keyFile, TLSClientCertFile: certFile, TLSCACertFiles: h.bundles[b],
 		CrypkiEndpoints: names, CrypkiPort: uint(h.farm.Port), Retries: 1, PerTryTimeout: 2 * time.Second,
 	})
 	if err == nil {
@@ -342,6 +350,11 @@ func (h *harness) runCase(class string, b bundleKind, eps []int, specs []srvSpec
 	}
 	conns, rpcs := h.farm.Take()
 	clientDER := h.p.client.Certificate[0]
+	clientIssuer := uint64(idClientCA)
+	if h.selfClient {
+		clientDER, clientIssuer = h.selfCert.Certificate[0], idSelfClient
+		human = append(human, "client certificate: a single self-signed certificate")
+	}
 	var obs, obsHuman []string
 	for _, ep := range eps {
 		ip := ips[ep]
@@ -399,7 +412,7 @@ func (h *harness) runCase(class string, b bundleKind, eps []int, specs []srvSpec
 	if b == 3 {
 		bundleIDs = append(bundleIDs, core.GN(idClientCA))
 	}
-	env := core.GApp("mkEnv", core.GList(bundleIDs), core.GList([]string{core.GN(idSystem)}), core.GN(idClientCA), core.GZ(h.p.now.Unix()))
+	env := core.GApp("mkEnv", core.GList(bundleIDs), core.GList([]string{core.GN(idSystem)}), core.GN(clientIssuer), core.GZ(h.p.now.Unix()))
 	c.Case(class,
 		core.GApp("CTls", env, core.GList(epTerms), core.GList(obs), core.GBool(serr != nil), core.GList(certIDs)),
 		map[string]interface{}{"bundle": bundleNames[b], "endpoints": human, "observed": obsHuman,
@@ -460,6 +473,15 @@ func run(c *core.Ctx) {
 		must(err)
 	}
 	h.bundles = [][]string{{fa}, {fa, fb}, {fab}, {fcc, fan, fb}, {fan, fbn}, {fsym}, {fexp[0]}, {fexp[0], fexp[1]}}
+	// a client certificate that is its own issuer (a deployment without a client CA: the servers pin it or only log it)
+	h.selfCert, err = casim.SelfSigned(casim.Leaf{CN: "ra-self-signed", Client: true, NotBefore: time.Now().Add(-time.Hour), NotAfter: time.Now().Add(24 * time.Hour)})
+	must(err)
+	selfKeyPEM, err := casim.KeyPEM(h.selfCert)
+	must(err)
+	h.selfCertFile, err = casim.WriteFile(dir, "client-self.crt", casim.CertPEM(h.selfCert))
+	must(err)
+	h.selfKeyFile, err = casim.WriteFile(dir, "client-self.key", selfKeyPEM)
+	must(err)
 	h.keys, err = casim.NewSSHKeys(len(ips), 0) // server at address i answers with certificate i+1
 	must(err)
 	h.farm, err = casim.NewFarm(ips)
@@ -525,6 +547,13 @@ func run(c *core.Ctx) {
 			runPattern("identity", b, srvSpec{idByB, 3, 1}, patterns[0])
 			runPattern("identity", b, srvSpec{idByForeign, 3, 1}, patterns[1])
 		}
+		// the RA's certificate is a single self-signed certificate: servers that ask for a certificate see exactly it,
+		// servers that verify it against a client CA refuse the RA
+		h.selfClient = true
+		for au := range authModes {
+			runPattern("self-signed-client-certificate", bundleKind(au%3), srvSpec{idByA, 1 + au%3, au}, patterns[au%len(patterns)])
+		}
+		h.selfClient = false
 		for _, b := range []bundleKind{6, 7} {
 			runPattern("expired-bundle", b, srvSpec{idBySystem, 3, 1}, patterns[0])
 			runPattern("expired-bundle", b, srvSpec{idBySystem, 3, 0}, patterns[1])
